@@ -780,7 +780,7 @@ def check_kind(chk, tables, kind, tier, seed):
             if kind in CLAMP_KINDS:
                 check_probe_kernels(chk, tables, kind, red, rng, steps)
     # one trainer, several cells with per-cell overrides / connection kinds / histories
-    for rep_ in range(6 if quick else 12):
+    for rep_ in range(6 if quick else 40):
         ncells = 2 + (rep_ % 2)
         if kind in HOMEO_KINDS:
             check_multi_homeostasis(chk, tables, kind, rng, steps, ncells)
